@@ -41,3 +41,5 @@ package store
 // Loading a topic row reports the stored high-water mark.
 //@ func (m TopicsPersistenceInterface) Get(topic string) (stopic *types.Topic, err error)
 //@   ensures [C01] err == nil && stopic != nil ==> stopic.SeqId == hwm[topic]
+
+//@ func (s SubsPersistenceInterface) Update(topic string, user types.Uid, update map[string]interface{}) (err error)
